@@ -379,9 +379,15 @@ def errname(e, fault_fired):
         for i, w in enumerate(('user name too long', 'description too long', 'too much extension data')):
             if w in m:
                 return 'err:Meta%d' % i
+    if isinstance(e, CallbackError):
+        return 'err:Callback'
     if fault_fired:
         return 'err:IO'
     return 'err:Other(%s)' % type(e).__name__
+
+
+class CallbackError(RuntimeError):
+    """raised by the callback handed to tpc_finish (failure kind `finishcb`)"""
 
 
 class Runner:
@@ -449,7 +455,23 @@ class Runner:
         return info
 
     # ---- a committed transaction ------------------------------------------------------------
+    def lock_held(self, env, where):
+        """a commit lock that is held although no call is in progress can only be a leak; calling
+        tpc_begin now would hang the check, so report and end the history"""
+        locks = [env.inner._commit_lock]
+        if env.demo is not None:
+            locks.append(env.demo._commit_lock)
+        if any(l.locked() for l in locks):
+            env.dead = True
+            self.violation('C05:lock-leak:%s:%s' % (env.kind, where),
+                           'a commit lock is still held between transactions (%s): the next tpc_begin '
+                           'would block forever' % where)
+            return True
+        return False
+
     def commit(self, env, txn, label='commit'):
+        if label != 'next' and self.lock_held(env, 'before-' + label):
+            return False
         t, tid, obj = env.new_txn(txn.get('u', 0), txn.get('d', 0), txn.get('e', 0))
         st = env.st
         el = len(obj.extension_bytes)
@@ -525,11 +547,22 @@ class Runner:
     def violation(self, sig, what):
         self.violations.append((sig, what, len(self.executed) - 1))
 
+    def loads(self, env):
+        out = {}
+        for oid in sorted(env.oids):
+            try:
+                d, s = env.st.load(p64(oid), '')
+                out[oid] = (len(d), tag_of(d), u64(s))
+            except Exception as e:
+                out[oid] = type(e).__name__
+        return out
+
     def next_txn(self, env, scen_label):
         """the next transaction begins (lock not leaked), commits and is readable"""
         res = {}
         mark = len(self.lines)
         q0 = self.stats.get('err:Quota', 0)
+        loads0 = self.loads(env)
 
         def work():
             try:
@@ -570,6 +603,14 @@ class Runner:
             self.violation('C05:next-txn-unreadable:%s:%s' % (env.kind, scen_label),
                            'the transaction following the aborted one committed but is not readable')
             return False
+        # ... and it committed NORMALLY: nothing but its own record changed
+        loads1 = self.loads(env)
+        bad = [o for o in loads0 if o != NEXT_OID and loads0[o] != loads1.get(o)]
+        if bad:
+            self.violation('C05:next-txn-damaged-others:%s:%s' % (env.kind, scen_label),
+                           'the transaction following the aborted one stored oid %d only, but afterwards '
+                           'load(%d) answers %r instead of %r' % (NEXT_OID, bad[0], loads1.get(bad[0]), loads0[bad[0]]))
+            return False
         self.obs_point(env, 'after-next')
         return True
 
@@ -587,6 +628,14 @@ class Runner:
                         va = 'bytes[%s]' % (len(va) if isinstance(va, bytes) else va)
                         vb = 'bytes[%s]' % (len(vb) if isinstance(vb, bytes) else vb)
                     parts.append('%s[%r]: before %s after %s' % (sect, k, str(va)[:80], str(vb)[:80]))
+        if any('lock_free' in p for p in parts):
+            env.dead = True
+            sig = 'C05:lock-leak:%s:%s' % (env.kind, scen_label)
+            if env.kind.startswith('demo') and scen_label.startswith('meta'):
+                sig = 'C05:demo-begin-failure-leaks-locks'
+            self.violation(sig, '%s; after the mandated tpc_abort a commit lock is still held (%s): the next '
+                                'tpc_begin would block forever' % (what_failed, '; '.join(parts)))
+            return False
         tag = 'mem' if all(p.startswith('mem') for p in parts) else (
             'disk' if any(p.startswith('dir') for p in parts) else 'query')
         if any('.blob' in p for p in parts):
@@ -604,6 +653,8 @@ class Runner:
         if fk == 'meta':
             label = 'meta%d' % failure['which']
         self.executed.append(dict(type='scenario', victim=victim, failure=failure))
+        if self.lock_held(env, 'before-' + label):
+            return []
         self.count('scenario:' + label)
         srec = [dict(kind=env.kind, quota=env.quota, ncommitted=len(env.alltids), victim=victim,
                      failure=failure), False]
@@ -768,6 +819,36 @@ class Runner:
             self.finish_failure_checks(env, r, tid, label)
             return percall
         rec.fail_at = None
+        # ---- finish-callback: tpc_finish(t, f) with f raising — before the status flip, so the
+        # transaction has NOT finished; the mandated abort follows
+        if fk == 'finishcb' and state['voted']:
+            def boom(tid):
+                raise CallbackError('tpc_finish callback failed')
+            r = self.call(env, 'finish', lambda: st.tpc_finish(obj, boom), 'finishcb %d' % t, label=label)
+            if r['out'] != 'err:Callback':
+                self.violation('C05:finish-callback-failure:%s:not-raised' % env.kind,
+                               'tpc_finish with a raising callback answered ' + r['out'])
+                env.dead = True
+                return percall
+            self.call(env, 'abort', lambda: st.tpc_abort(obj), 'abort %d' % t, label=label)
+            self.cleanup_blob_tmp(env)
+            env.dead = True          # the model does not follow the storage beyond this point
+            self.nontrivial = srec[1] = True
+            after = env.observe()
+            if after != before:
+                diffs = ['%s[%r]' % (sect, k) for sect in ('dir', 'q', 'mem')
+                         for k in sorted(set(before[sect]) | set(after[sect]), key=repr)
+                         if before[sect].get(k, '<absent>') != after[sect].get(k, '<absent>')]
+                leak = any('lock_free' in x for x in diffs)
+                group = 'demo' if env.demo is not None else ('file' if env.fs is not None else env.kind)
+                sig = 'C05:finish-callback-failure:%s:%s' % (group, 'lock-leak' if leak else 'voted-data-left')
+                self.violation(sig, 'the callback passed to tpc_finish raised (before the status flip: the '
+                                    'transaction did not finish); after the mandated tpc_abort the storage '
+                                    'differs from its state before the transaction began in %s%s' % (
+                                        ', '.join(diffs[:6]),
+                                        ' — a commit lock is still held, the next tpc_begin blocks' if leak else ''))
+            self.obs_point(env, 'after:finishcb')
+            return percall
         # ---- foreign calls, then the victim commits normally
         if fk == 'foreign' and failure.get('commit') and not state['failed']:
             if not state['voted']:
@@ -905,8 +986,15 @@ class Runner:
                     break
                 if step['type'] == 'commit':
                     self.executed.append(step)
-                    self.commit(env, step['txn'])
-                    self.obs_point(env, 'after-commit')
+                    before = env.observe()
+                    if not self.commit(env, step['txn']) and not env.dead:
+                        # a history transaction that failed (e.g. deleteObject of an absent oid) and
+                        # was aborted is one more victim
+                        self.count('scenario:failed-commit')
+                        if self.compare(env, before, 'failed-commit', 'a transaction failed and was aborted'):
+                            self.next_txn(env, 'failed-commit')
+                    if not env.dead:
+                        self.obs_point(env, 'after-commit')
                 elif step['type'] == 'scenario':
                     self.scenario(env, step['victim'], step['failure'])
                 elif step['type'] == 'sweep':
@@ -963,10 +1051,16 @@ def gen_case(rng, kind, thorough):
     quota = None
     if kind in ('file', 'fileblob', 'demofile') and rng.random() < 0.5:
         quota = rng.choice([600000, 1000000, 2000000])
-    if kind in ('file', 'fileblob') and rng.random() < 0.5:
+    r = rng.random()
+    if kind in ('file', 'fileblob') and r < 0.5:
         v = gen_txn(rng, kind, oids)
         v['d'] = min(v['d'], 300)
         steps.append(dict(type='scenario', victim=v, failure=dict(kind='finishfault')))
+    elif r > 0.85:
+        v = gen_txn(rng, kind, oids)
+        v['d'] = min(v['d'], 300)
+        v['ops'] = [o for o in v['ops'] if o[0] != 'delete'] or [['store', 1, 'cur', 5, 5]]
+        steps.append(dict(type='scenario', victim=v, failure=dict(kind='finishcb')))
     return dict(kind=kind, quota=quota, base=base, steps=steps)
 
 
@@ -1020,91 +1114,97 @@ def conn_case(ck, root, seed_rng):
                 pass
 
         for when in ('vote', 'commit', 'begin'):
-            def image():
-                img = {k: v for k, v in vfs.snapshot(root).items()
-                       if not k.endswith('/') and not k.endswith('.lock') and not k.endswith('.tmp')}
-                its = [(t.tid, [(x.oid, x.tid, x.data) for x in t]) for t in fs.iterator()]
-                return dict(img=img, its=its, pos=fs._pos, ltid=fs._ltid, nidx=len(fs._index),
-                            ntidx=len(fs._tindex), txn=fs._transaction is None,
-                            lock=not fs._commit_lock.locked())
-            before = image()
-            n0 = len(rec.events)
-            r['k0']['v'] = 'changed-' + when + 'y' * seed_rng.choice([1, 5000, 30000])
-            r['new-' + when] = PersistentMapping()
-            t = tm.get()
-            t.join(FailingRM(when))
-            try:
-                tm.commit()
-                raised = False
-            except RuntimeError:
-                raised = True
-            tm.abort()
-            evs = [e for e in rec.events[n0:] if e[0] in ('write', 'trunc') and e[1] == 'Data.fs']
-            kinds = ''.join('w' if e[0] == 'write' else 't' for e in evs)
-            after = image()
-            ck.count('conn:foreign-%s' % when)
-            ck.count('conn:data-trace:' + ('write+trunc' if 't' in kinds else (kinds and 'write' or 'none')))
-            ck.case(['conn', when, kinds], when == 'vote' and 't' in kinds)
-            case = dict(kind='conn', when=when)
-            if not raised:
-                ck.violation('C05:conn:foreign-%s-not-raised' % when, 'transaction.commit() did not raise', case)
-            if before != after:
-                diff = [k for k in before if before[k] != after[k]]
-                ck.violation('C05:trace-left:conn:foreign-%s' % when,
-                             'a second resource manager failed its %s; after transaction.commit() raised and '
-                             'abort, the FileStorage differs in %s' % (when, diff), case)
-            if when == 'vote' and kinds and not kinds.endswith('t'):
-                ck.mismatch('conn foreign vote: data-file trace %r does not end with a truncate' % kinds, case)
-            # next transaction through the same connection
-            done = []
-
-            def nxt():
-                r['after-' + when] = 1
-                tm.commit()
-                done.append(1)
-            th = threading.Thread(target=nxt, daemon=True)
-            th.start()
-            th.join(TIMEOUT)
-            if not done:
-                ck.violation('C05:lock-leak:conn:foreign-%s' % when,
-                             'the next transaction.commit() did not return', case)
-                return
-            conn.sync()
-            if conn.root().get('after-' + when) != 1 or ('new-' + when) in conn.root():
-                ck.violation('C05:next-txn-unreadable:conn:foreign-%s' % when,
-                             'state after the next commit is wrong', case)
+          try:
+            conn_round(ck, root, rec, fs, tm, conn, r, FailingRM, when, seed_rng)
+          except Exception as e:
+            ck.violation('C05:conn:unexpected-error:foreign-%s' % when,
+                         'driving a Connection on a FileStorage with a failing second resource manager '
+                         'raised %s: %s' % (type(e).__name__, str(e)[:200]), dict(kind='conn', when=when))
+            return
         conn.close()
         db.close()
 
 
+def conn_round(ck, root, rec, fs, tm, conn, r, FailingRM, when, seed_rng):
+    from persistent.mapping import PersistentMapping
+    def image():
+        img = {k: v for k, v in vfs.snapshot(root).items()
+               if not k.endswith('/') and not k.endswith('.lock') and not k.endswith('.tmp')}
+        its = [(t.tid, [(x.oid, x.tid, x.data) for x in t]) for t in fs.iterator()]
+        return dict(img=img, its=its, pos=fs._pos, ltid=fs._ltid, nidx=len(fs._index),
+                    ntidx=len(fs._tindex), txn=fs._transaction is None,
+                    lock=not fs._commit_lock.locked())
+    before = image()
+    n0 = len(rec.events)
+    r['k0']['v'] = 'changed-' + when + 'y' * seed_rng.choice([1, 5000, 30000])
+    r['new-' + when] = PersistentMapping()
+    t = tm.get()
+    t.join(FailingRM(when))
+    try:
+        tm.commit()
+        raised = False
+    except RuntimeError:
+        raised = True
+    tm.abort()
+    evs = [e for e in rec.events[n0:] if e[0] in ('write', 'trunc') and e[1] == 'Data.fs']
+    kinds = ''.join('w' if e[0] == 'write' else 't' for e in evs)
+    after = image()
+    ck.count('conn:foreign-%s' % when)
+    ck.count('conn:data-trace:' + ('write+trunc' if 't' in kinds else (kinds and 'write' or 'none')))
+    ck.case(['conn', when, kinds], when == 'vote' and 't' in kinds)
+    case = dict(kind='conn', when=when)
+    if not raised:
+        ck.violation('C05:conn:foreign-%s-not-raised' % when, 'transaction.commit() did not raise', case)
+    if before != after:
+        diff = [k for k in before if before[k] != after[k]]
+        ck.violation('C05:trace-left:conn:foreign-%s' % when,
+                     'a second resource manager failed its %s; after transaction.commit() raised and '
+                     'abort, the FileStorage differs in %s' % (when, diff), case)
+    if when == 'vote' and kinds and not kinds.endswith('t'):
+        ck.mismatch('conn foreign vote: data-file trace %r does not end with a truncate' % kinds, case)
+    # next transaction through the same connection
+    done = []
+
+    def nxt():
+        try:
+            r['after-' + when] = 1
+            tm.commit()
+            done.append(1)
+        except Exception as e:
+            done.append(e)
+    th = threading.Thread(target=nxt, daemon=True)
+    th.start()
+    th.join(TIMEOUT)
+    if not done:
+        ck.violation('C05:lock-leak:conn:foreign-%s' % when,
+                     'the next transaction.commit() did not return', case)
+        return
+    if done[0] != 1:
+        ck.violation('C05:next-txn-failed:conn:foreign-%s' % when,
+                     'the next transaction.commit() raised %r' % (done[0],), case)
+        return
+    conn.sync()
+    if conn.root().get('after-' + when) != 1 or ('new-' + when) in conn.root():
+        ck.violation('C05:next-txn-unreadable:conn:foreign-%s' % when,
+                     'state after the next commit is wrong', case)
+
+
 # ---------------------------------------------------------------------------- driver / verdict
-CORPUS = [
-    # DemoStorage.tpc_begin: changes.tpc_begin raises (description too long) — next begin must not block
-    dict(kind='demofile', quota=None, base=[[1, BASE_T0 + 16]], steps=[
-        dict(type='scenario', victim=dict(u=0, d=0, e=0, ops=[['store', 2, 'cur', 10, 5]]),
-             failure=dict(kind='meta', which=1, extra=4464))]),
-    # BlobStorage.tpc_abort(other transaction) must not remove the in-flight transaction's blob files
-    dict(kind='blobmapping', quota=None, base=[], steps=[
-        dict(type='scenario', victim=dict(u=0, d=0, e=0, ops=[['storeblob', 1, 'cur', 10, 5]]),
-             failure=dict(kind='foreign', phase=1, commit=True))]),
-    dict(kind='fileblob', quota=None, base=[], steps=[
-        dict(type='commit', txn=dict(u=0, d=3, e=0, ops=[['storeblob', 1, 'cur', 10, 5]])),
-        dict(type='scenario', victim=dict(u=0, d=0, e=0, ops=[['storeblob', 1, 'cur', 12, 6], ['store', 2, 'cur', 5, 7]]),
-             failure=dict(kind='abort', at=1)),
-        dict(type='scenario', victim=dict(u=0, d=0, e=0, ops=[['storeblob', 1, 'cur', 12, 6]]),
-             failure=dict(kind='foreign', phase=2, commit=True))]),
-]
+CORPUS_DIR = os.path.join(os.path.dirname(os.path.dirname(os.path.abspath(__file__))), 'corpus', 'C05')
 
 
 def load_corpus():
-    cases = list(CORPUS)
-    d = os.path.join(os.path.dirname(os.path.dirname(os.path.abspath(__file__))), 'corpus', 'C05')
-    if os.path.isdir(d):
-        for f in sorted(os.listdir(d)):
+    """minimised past failures / reproduced defects, always run first (the first two are the repaired
+    DemoStorage begin-failure lock leak and the BlobStorage foreign-abort defect)"""
+    cases = []
+    if os.path.isdir(CORPUS_DIR):
+        for f in sorted(os.listdir(CORPUS_DIR)):
             if f.endswith('.json'):
-                with open(os.path.join(d, f)) as fh:
+                with open(os.path.join(CORPUS_DIR, f)) as fh:
                     c = json.load(fh)
                 cases.append(c.get('case', c))
+    if not cases:
+        raise InfraError('corpus/C05 is missing')
     return cases
 
 
@@ -1205,7 +1305,8 @@ def main(argv=None):
             else:
                 small = steps
             ck.violation(sig, what, dict(kind=kind, quota=quota, base=base, steps=small))
-        else:
+        if all(v[0].startswith('C05:finish-callback-failure') for v in r.violations):
+            # (the model follows the code through a failing finish callback, so it is still compared)
             spans.append((len(all_lines), r, case))
             all_lines += r.lines
     # model: one driver process for all cases
